@@ -93,7 +93,27 @@ SEEDS.update({
     "C07_2": dict(change="accepted_proposals / amount_of_writes reset moved from _init_sampler to __init__",
                   needs="the same sampler object running sample() twice",
                   caught_by="runs on a sampler object that already made a run, acceptance counted from the transitions (added after this seed was first missed)"),
-})
+    "C08_2": dict(change="EvaluationLimiter: the gradient branch no longer resets the evaluation counter before raising KeyboardInterrupt",
+                  needs="the library's EvaluationLimiter as interrupt source, HMC, budget expiring at a gradient call, an immediate second run on the same objects",
+                  caught_by="EvaluationLimiter as interrupt source with budgets 1..29, second run on the same sampler and target (added after this seed was first missed)"),
+    "C09_2": dict(change="animated leapfrog of HMC_visual draws the step-size factor unconditionally",
+                  needs="HMC_visual, animate_proposals=True, randomize_stepsize=False, compared with a non-animated run",
+                  caught_by="visual samplers with and without animation in the differential runs"),
+    "C10_2": dict(change="combine_samples culls only columns that are NaN in every row (all instead of any)",
+                  needs="an input chain with a partially NaN column",
+                  caught_by="combine_samples cases with NaN columns; container model co-execution"),
+    "C11_2": dict(change="failed-start clean-up closes the samples file only when the raw file name matches the normalised one",
+                  needs="HDF5, a file name given without extension, a start failing after the file was opened, then a run on the same path",
+                  caught_by="extensionless file names in the operation grammar (added after this seed was first missed)"),
+    "C12_2": dict(change="paired chains forward their misfit and use the received one instead of evaluating their own target",
+                  needs="exchange with distinct per-chain targets",
+                  caught_by="own-misfit and swap-rule oracles on hash / tempered targets; network correspondence"),
+    "C13_2": dict(change="CompositeDistribution.corrector walks blocks with a running slice that is not advanced for unbounded parts",
+                  needs="a composite without own bounds where an unbounded part precedes a bounded one, and a point leaving the box",
+                  caught_by="block-wise corrector check on composites with mixed bounded / unbounded parts"),
+    "C14_2": dict(change="Mixture.generate enumerates the counts of the components that were drawn, renumbering them from 0",
+                  needs="a component (not the last) missing from the batch: zero / tiny weight or a very small batch",
+                  caught_by="push-forward check of Mixture.generate against the generator's recorded choice (added after this seed was first missed)"),})
 
 
 def main():
